@@ -1,5 +1,6 @@
 import Proofs.C08.Num
 import Proofs.C08.Core
+import Proofs.C08.Gen
 import Model.C08.Verify
 import Generated.Script
 /-!
@@ -32,6 +33,26 @@ theorem decode_encode_num (i : Int) (h : MIN_SCRIPT_NUM ≤ i ∧ i ≤ MAX_SCRI
 theorem encode_num_range (i : Int) (h : ¬ (MIN_SCRIPT_NUM ≤ i ∧ i ≤ MAX_SCRIPT_NUM)) :
     encodeNum i = .error .value := by
   simp [encodeNum, h]
+
+/-- `encode_num` writes, for every int64, the bytes `CScriptNum::serialize` writes. -/
+theorem encode_num_is_CScriptNum_serialize (i : Int) (h : MIN_SCRIPT_NUM ≤ i ∧ i ≤ MAX_SCRIPT_NUM) :
+    encodeNum i = .ok (Core.scriptNumSerialize i) := by
+  simp [encodeNum, h, encodeNumRaw_eq_serialize]
+
+/-- the same, about the definition TRANSLATED from btclib's source on this run (`Gen.Script.encode_num`): it answers
+    exactly on the int64 range, with `CScriptNum::serialize`'s bytes, which `decode_num` reads back. -/
+theorem translated_encode_num (i : Int) :
+    (Gen.Script.MIN_SCRIPT_NUM ≤ i ∧ i ≤ Gen.Script.MAX_SCRIPT_NUM →
+      Gen.Script.encode_num i = .ok (Core.scriptNumSerialize i) ∧ decodeNum (Core.scriptNumSerialize i) = i) ∧
+    (¬ (Gen.Script.MIN_SCRIPT_NUM ≤ i ∧ i ≤ Gen.Script.MAX_SCRIPT_NUM) → Gen.Script.encode_num i = .error .value) := by
+  have hmin : Gen.Script.MIN_SCRIPT_NUM = MIN_SCRIPT_NUM := by decide
+  have hmax : Gen.Script.MAX_SCRIPT_NUM = MAX_SCRIPT_NUM := by decide
+  rw [gen_encode_num_eq, hmin, hmax]
+  constructor
+  · intro h
+    refine ⟨encode_num_is_CScriptNum_serialize i h, ?_⟩
+    rw [← encodeNumRaw_eq_serialize]; exact decodeNum_encodeNumRaw i
+  · intro h; exact encode_num_range i h
 
 /-- btclib's minimality test `encode_num(decode_num(b)) == b` accepts exactly the encodings Core's
     `CScriptNum` constructor calls minimal — on every byte string, negative zero of every length included. -/
